@@ -119,6 +119,20 @@ def eval_oil(case):
             viol.append(V("oil/rho-Bo-mass-content", f"rho_o*B_o={lhs!r} vs stock-tank oil + dissolved gas "
                           f"{rhs!r} at p={p:.6g} (p_b={pb:.6g})", case=dict(case, p=p), observed=lhs, expected=rhs,
                           tol=REL_CORR))
+    # the same identity through the ARRAY forms, on one array that straddles the bubble point
+    ps_all = np.array(sorted(f * pb for f in list(case["fractions"]) + [q / pb for q in case.get("absolute", [])]))
+    try:
+        rho_a = np.asarray(oil.density_Standing(T, ps_all.copy(), api, g, gor), dtype=float)
+        bo_a = np.asarray(oil.b_o_Standing(T, ps_all.copy(), api, g, gor), dtype=float)
+        rs_a = np.asarray(oil.solution_gor_Standing(T, ps_all.copy(), api, g, gor), dtype=float)
+        rhs_a = 62.37 * so + 0.0136 * g * rs_a
+        if not np.all(np.abs(rho_a * bo_a / rhs_a - 1) <= REL_CORR):
+            k = int(np.argmax(np.abs(rho_a * bo_a / rhs_a - 1)))
+            viol.append(V("oil/rho-Bo-mass-content/array", f"array forms on pressures straddling p_b={pb:.6g}: rho_o*B_o = "
+                          f"{float(rho_a[k] * bo_a[k])!r} vs stock-tank oil + dissolved gas {float(rhs_a[k])!r} at p={ps_all[k]:.6g}",
+                          case=case, observed=float(rho_a[k] * bo_a[k]), expected=float(rhs_a[k]), tol=REL_CORR))
+    except Exception as e:  # noqa: BLE001
+        viol.append(V("oil/rho-Bo-mass-content/array", f"array forms raise {type(e).__name__}: {e}", case=case))
     vals = np.array(vals)
     spread = (vals.max() - vals.min()) / abs(vals.mean())
     if not spread <= 1e-11:
